@@ -60,7 +60,7 @@ class Armorable(metaclass=abc.ABCMeta):
                          ^-{5}BEGIN\ PGP\ (?P<magic>[A-Z0-9 ,]+)-{5}(?:\r?\n)
                          # try to capture all the headers into one capture group
                          # if this doesn't match, m['headers'] will be None
-                         (?P<headers>(^.+:\ .+(?:\r?\n))+)?(?:\r?\n)?
+                         (?P<headers>(^.+:\ .*(?:\r?\n))+)?(?:[ \t]*\r?\n)?
                          # capture all lines of the body, up to 76 characters long,
                          # including the newline, and the pad character(s)
                          (?P<body>([A-Za-z0-9+/]{1,76}={,2}(?:\r?\n))+)
@@ -144,7 +144,7 @@ class Armorable(metaclass=abc.ABCMeta):
             m['hashes'] = m['hashes'].split(',')
 
         if m['headers'] is not None:
-            m['headers'] = collections.OrderedDict(re.findall('^(?P<key>.+): (?P<value>.+?)\r?$\n?', m['headers'], flags=re.MULTILINE))
+            m['headers'] = collections.OrderedDict(re.findall('^(?P<key>.+?): (?P<value>.*?)\r?$\n?', m['headers'], flags=re.MULTILINE))
 
         if m['body'] is not None:
             try:
